@@ -85,13 +85,41 @@ pub enum Op {
   Peek { a: bool, k: u32 },
   EntryGet { a: bool, k: u32 },
   MultiGet { a: bool, keys: Vec<u32> },
-  Iter { kind: IterKind, batch: u8, adv: Option<(u16, Adv)> },
+  Iter {
+    kind: IterKind,
+    batch: u8,
+    adv: Option<(u16, Adv)>,
+    /// Stream only: before yielding the item with one of these indices the interpreter holds the write
+    /// lock of every shard (sync `entry()` guards), polls the stream once (a refill goes Pending),
+    /// releases the guards and polls to completion
+    #[serde(default)]
+    held_at: Vec<u16>,
+  },
   Maint { a: bool },
   Advance(Adv),
   Metrics { a: bool },
   Bulk { n: u8, c: u8, multi: bool },
-  Restore { fmt: u8, pol: Pol, extra: Vec<(u32, u8)>, lifetimes: bool, asnap: bool },
+  Restore {
+    fmt: u8,
+    pol: Pol,
+    extra: Vec<(u32, u8)>,
+    lifetimes: bool,
+    asnap: bool,
+    /// restore through `build_from_snapshot_async`
+    #[serde(default)]
+    abuild: bool,
+    /// the restoring builder states the capacity (the snapshot's own) instead of leaving its default
+    #[serde(default)]
+    bcap: bool,
+  },
   Quiesce,
+  /// The next operation on the async handle finds its shard locks contended: the interpreter holds the
+  /// write lock of every shard (sync `entry()` guards on keys nobody uses) while it polls the future once,
+  /// then releases them and polls to completion.
+  Contend,
+  /// async `multi_remove` polled once while the interpreter holds the write lock of one shard (`hold`
+  /// indexes the shards), then dropped (cancelled) before the guard is released.
+  CancelMultiRemove { keys: Vec<u32>, hold: u16, inval: bool },
 }
 
 #[derive(Clone, Debug, Serialize, Deserialize)]
@@ -195,16 +223,16 @@ fn iter_kind() -> impl Strategy<Value = IterKind> {
 }
 
 pub fn op_strategy(f: Focus) -> BoxedStrategy<Op> {
-  // weights: [write, remove, clear, multi, entry, compute, fetch_with, read, iter, maint, advance, metrics, bulk, restore, quiesce]
-  let w: [u32; 15] = match f {
-    Focus::C11 => [14, 6, 1, 4, 5, 5, 4, 24, 4, 4, 3, 1, 1, 0, 1],
-    Focus::C12 => [12, 2, 1, 2, 5, 2, 5, 26, 5, 8, 16, 1, 1, 1, 1],
-    Focus::C13 => [18, 6, 2, 5, 4, 2, 4, 8, 1, 7, 4, 2, 3, 0, 3],
-    Focus::C15 => [6, 8, 1, 1, 2, 1, 24, 8, 1, 4, 10, 1, 0, 0, 1],
-    Focus::C16 => [16, 10, 1, 5, 3, 1, 3, 8, 1, 10, 8, 1, 1, 0, 2],
-    Focus::C17 => [14, 3, 1, 4, 2, 1, 1, 4, 20, 3, 5, 1, 6, 8, 1],
+  // weights: [write, remove, clear, multi, entry, compute, fetch_with, read, iter, maint, advance, metrics, bulk, restore, quiesce, contend, cancelled multi_remove]
+  let w: [u32; 17] = match f {
+    Focus::C11 => [14, 6, 1, 4, 5, 5, 4, 24, 4, 4, 3, 1, 1, 0, 1, 3, 1],
+    Focus::C12 => [12, 2, 1, 2, 5, 2, 5, 26, 5, 8, 16, 1, 1, 1, 1, 3, 1],
+    Focus::C13 => [18, 6, 2, 5, 4, 2, 4, 8, 1, 7, 4, 2, 3, 0, 3, 3, 2],
+    Focus::C15 => [6, 8, 1, 1, 2, 1, 24, 8, 1, 4, 10, 1, 0, 0, 1, 3, 1],
+    Focus::C16 => [16, 10, 1, 5, 3, 1, 3, 8, 1, 10, 8, 1, 1, 0, 2, 3, 6],
+    Focus::C17 => [14, 3, 1, 4, 2, 1, 1, 4, 20, 3, 5, 1, 6, 8, 1, 3, 1],
   };
-  let w: [u32; 15] = w.map(|x| x.max(1)); // proptest unions reject weight 0
+  let w: [u32; 17] = w.map(|x| x.max(1)); // proptest unions reject weight 0
   let a = || any::<bool>();
   prop_oneof![
     w[0] => prop_oneof![
@@ -230,13 +258,17 @@ pub fn op_strategy(f: Focus) -> BoxedStrategy<Op> {
       (a(), key()).prop_map(|(a, k)| Op::EntryGet { a, k }),
       (a(), proptest::collection::vec(key(), 0..6)).prop_map(|(a, keys)| Op::MultiGet { a, keys }),
     ],
-    w[8] => (iter_kind(), 0u8..6, proptest::option::weighted(0.35, (0u16..200, adv()))).prop_map(|(kind, batch, adv)| Op::Iter { kind, batch, adv }),
+    w[8] => (iter_kind(), 0u8..6, proptest::option::weighted(0.35, (0u16..200, adv())), proptest::option::weighted(0.4, proptest::collection::vec(prop_oneof![3 => 0u16..8, 2 => 60u16..70, 1 => 0u16..200], 1..4)))
+      .prop_map(|(kind, batch, adv, held)| Op::Iter { kind, batch, adv, held_at: if kind == IterKind::Stream { held.unwrap_or_default() } else { vec![] } }),
     w[9] => a().prop_map(|a| Op::Maint { a }),
     w[10] => adv().prop_map(Op::Advance),
     w[11] => a().prop_map(|a| Op::Metrics { a }),
     w[12] => (0u8..8, 0u8..6, any::<bool>()).prop_map(|(n, c, multi)| Op::Bulk { n, c, multi }),
-    w[13] => (0u8..3, pol_strategy(), proptest::collection::vec((0u32..40, 0u8..6), 0..12), any::<bool>(), any::<bool>()).prop_map(|(fmt, pol, extra, lifetimes, asnap)| Op::Restore { fmt, pol, extra, lifetimes, asnap }),
+    w[13] => (0u8..3, pol_strategy(), proptest::collection::vec((0u32..40, 0u8..6), 0..12), any::<bool>(), any::<bool>(), any::<bool>(), prop::bool::weighted(0.3))
+      .prop_map(|(fmt, pol, extra, lifetimes, asnap, abuild, bcap)| Op::Restore { fmt, pol, extra, lifetimes, asnap, abuild, bcap }),
     w[14] => Just(Op::Quiesce),
+    w[15] => Just(Op::Contend),
+    w[16] => (proptest::collection::vec(key(), 1..8), any::<u16>(), any::<bool>()).prop_map(|(keys, hold, inval)| Op::CancelMultiRemove { keys, hold, inval }),
   ]
   .boxed()
 }
